@@ -11,6 +11,9 @@ R05.2 "does not depend on how the stream was cut into update calls" (bookkeeping
 R05.3 every unit that implements the SHA-1 / SHA-256 round function for the multi-hash (block functions of all
       families, the final single-buffer hash over the 16 segment digests) carries the complete standard round
       constants, tables in standard order; the init / final-hash units carry the standard initial hash values.
+R05.4 "hashed ... with standard SHA-1 / SHA-256" (padding half): every store of the message bit length into a
+      padding buffer that the C source asks for (tail functions, the final single-buffer hash) survives in the
+      object built with the real flags - some instruction attributed to that source line writes memory.
 """
 import re
 
@@ -34,6 +37,8 @@ def run(chk):
     chk.floor("assembly block functions", nb, 8)
     nu = mhrules.total_length_rule(chk, "R05.2", mods, r"^_mh_sha(1|256)_update_\w+$")
     chk.floor("update functions", nu, 10)
+    ns = mhrules.length_store_survives(chk, "R05.4", lib, mods)
+    chk.floor("bit-length stores checked for survival", ns, 6)
     nunits, nctx = c01.constant_rules(chk, lib, DIRS, "R05.3", "R05.3", {"SHA1": 6, "SHA256": 6}, {"SHA1": 2, "SHA256": 2}, ctx_pat=re.compile(r"^(mh_sha1|mh_sha256|sha1_for_mh_sha1|sha256_for_mh_sha256)\.o$"))
     chk.trusted += ["LLVM 14 MC decoding", "clang -O0 + mem2reg IR of the C layer", "the definitions in lib/stdconst.py"]
     chk.extra.update({"round_function_units": dict(nunits), "initial_value_units": dict(nctx),
